@@ -67,6 +67,10 @@ CLAIMS = {
   "Deductive: Node._refine_copy and Node.copy (the copy is fresh and detached, owns a new children list whose items are the copies of the original's children attached to it, the original, its child list and its children's parent links are untouched, tree updates are re-enabled) and ScopingNode._refine_copy (the copy owns the deep-copied table; loop invariant over the walk: every Reference / Loop variable that pointed at a symbol of the original's table points at the copy's symbol of the same lower-cased name, all others unchanged; the original's table untouched) verified on their real bodies. A bounded run-time contract on real copies (shared nodes, equality, symbol ownership, cross-tree renames) stands in for the unverified parts. Known finding (open): symbols reachable from datatypes/shapes/initial values are shared with the original.",
   "Assumed: child.copy() (induction hypothesis: fresh, injective), ChildrenList.extend via C14, copy.copy, SymbolTable.deep_copy (fresh symbols under the same keys), walk as a list function. NOT under contract: SymbolTable.deep_copy / Symbol.copy, _refine_copy overrides of other node classes, Node.__eq__.",
   TECH + "; loop invariant over the node walk; bounded run-time contract for the closure clause"),
+ "C22": ("proof",
+  "Deductive, decision functions only: LFRicHaloExchange.required answers 'no exchange' only if for EVERY run-time halo depth H>=1 and every run-time stencil extent v>=1 the depth the writer left clean (literal depth or the whole halo, minus the outermost level for a continuous writer) covers what each non-annexed reader needs (literal+extent, the whole halo, or all but the outermost level) -- linear integer VCs quantified over H and v, list loop by invariant; 'not known' implies 'required'. PSyLoop.unique_modified_args returns every argument of the requested type whose access modifies it (nested loop invariants). Known finding (open): a single max_depth_m1 reader after a fixed-depth writer. A brute-force evaluation of the same spec on the real required() over 374 record combinations agrees.",
+  "ASSUMED, not proved: how the read/write depth records are computed from the schedule, the placement of exchanges over the whole invoke and its preservation by redundant-computation, colouring, asynchronous-exchange and OpenMP transformations (the protocol-level induction), gen_mark_halos_clean_dirty's emitted set_dirty/set_clean calls. The halo conventions in CLEANED/NEEDED are transcribed by hand.",
+  TECH + "; integer VCs quantified over run-time depths"),
 }
 
 NA = {
